@@ -47,9 +47,17 @@ fn mh_case(rep: &mut Report, case: u64, g: &mut Sm64) {
     let n_chains = if g.chance(0.2) { 64 } else { g.range(2, 64) };
     let dim = g.range(1, 4);
     let seeded = g.chance(0.6);
-    let seed = match g.below(5) {
+    // seeds whose per-chain offsets land on or wrap around structurally special values
+    // (0, 2^32, 2^62, 2^63, 3*2^62, 2^64): k below ranges over the chain indices
+    let k = g.below(n_chains + 2) as u64;
+    let seed = match g.below(10) {
         0 => 0,
         1 => u64::MAX - n_chains as u64 - 2,
+        2 => u64::MAX.wrapping_sub(k),
+        3 => (1u64 << 62).wrapping_sub(1).wrapping_sub(k),
+        4 => (1u64 << 63).wrapping_sub(1).wrapping_sub(k),
+        5 => (3u64 << 62).wrapping_sub(1).wrapping_sub(k),
+        6 => (1u64 << 32).wrapping_sub(1).wrapping_sub(k),
         _ => g.next_u64() >> 1,
     };
     let open = g.chance(0.5);
@@ -217,7 +225,7 @@ fn hmc_case(rep: &mut Report, case: u64, g: &mut Sm64) {
     let cj = json!({"sampler": "HMC", "n_chains": n_chains, "dim": dim, "seeded": seeded, "seed": seed});
     rep.eval();
     let r = guard(|| {
-        let target = DiagGauss::new(vec![1.0; dim], vec![0.0; dim]);
+        let target = DiagGauss::new((0..dim).map(|i| 0.731 + 0.64 * i as f64).collect(), vec![0.0; dim]);
         let mut s = HMC::<f64, B64, DiagGauss>::new(target, vec![x0.clone(); n_chains], 0.05, 2);
         if seeded {
             s = s.set_seed(seed);
@@ -263,7 +271,10 @@ fn nuts_case(rep: &mut Report, case: u64, g: &mut Sm64) {
     let cj = json!({"sampler": "NUTS", "n_chains": n_chains, "dim": dim, "seeded": seeded, "seed": seed});
     rep.eval();
     let r = guard(|| {
-        let target = DiagGauss::new(vec![1.0; dim], vec![0.0; dim]);
+        // (not unit precision: with the default step size 1 the leapfrog map of a unit Gaussian is a
+        // rotation by exactly 60 degrees, every orbit contains the antipode -x0 whatever the momentum,
+        // and chains with different streams legitimately meet there)
+        let target = DiagGauss::new((0..dim).map(|i| 0.731 + 0.64 * i as f64).collect(), vec![0.0; dim]);
         let mut s = NUTS::<f64, B64, DiagGauss>::new(target, vec![x0.clone(); n_chains], 0.8);
         if seeded {
             s = s.set_seed(seed);
@@ -278,7 +289,7 @@ fn nuts_case(rep: &mut Report, case: u64, g: &mut Sm64) {
                     let a = &v[i * 4 * dim..(i + 1) * 4 * dim];
                     let b = &v[j * 4 * dim..(j + 1) * 4 * dim];
                     if bits_eq(a, b) && !a.chunks(dim).all(|r| bits_eq(r, &x0)) {
-                        rep.violation("NUTS chains-from-common-state-follow-identical-trajectories", mon, case, json!({"cfg": cj, "chains": [j, i]}));
+                        rep.violation("NUTS chains-from-common-state-follow-identical-trajectories", mon, case, json!({"cfg": cj, "chains": [j, i], "x0": x0, "trajectory": a}));
                         return;
                     }
                     rep.count("chain_pairs_compared");
